@@ -17,8 +17,10 @@ appended to SUBCHECKS by the coordinator.
 """
 import concurrent.futures as cf
 import hashlib
+import itertools
 import json
 import os
+import random
 import re
 import shutil
 import subprocess
@@ -1187,13 +1189,11 @@ def ws_selftest(v, w, d, binp, sz, seed, hooks, clean):
             okc, rej, _ = ws_judge(d, [dict(base, lines=lines)], name="selftest-" + name)
             return rej[0] if rej else None
 
-        if variant("base", L) is not None:
-            if v.violations:
-                done.append("trace self-test not conclusive on this tree: its base trace is rejected (violations reported)")
-                for s in done:
-                    log("binding self-test (ws): " + s)
-                return done
-            raise Infra("ws self-test: the base trace is rejected")
+        if v.violations and variant("base", L) is not None:  # (on a clean tree the base trace was accepted by the main judge run just before)
+            done.append("trace self-test not conclusive on this tree: its base trace is rejected (violations reported)")
+            for s in done:
+                log("binding self-test (ws): " + s)
+            return done
         i = next(k for k, x in enumerate(L) if x["l"] == "rl_fwd")
         j = next(k for k in range(i, len(L)) if L[k]["l"] == "w_lock" and L[k]["p"] == 1)
         # the answer written without the mutex: drop the reader's lock / unlock lines of the forwarded answer
@@ -1249,7 +1249,220 @@ def sub_ws_ctx(ctx):
     ctx["selftests"] += ctx["v"].cov["ws"]["selftest"]
 
 
-SUBCHECKS = [sub_design, sub_buslocks, sub_ws_ctx, sub_deviations, sub_indexer, sub_timers, sub_simulate, sub_stress, sub_selftest]
+# ------------------------------------------------------------------------------------------------ log criteria (spec/LogFilter.tla)
+
+LF_SIZES = {"quick": dict(filters=60, vectors=24, per=5, passes=2), "thorough": dict(filters=363, vectors=0, per=5, passes=2)}
+SIG_LF = "LogFilter/notifications-differ-from-model"
+
+
+def lf_grid(maxpos=4):
+    """The grid of spec/LogFilter.tla (the design run prints its cardinalities; they must agree)."""
+    seqs = lambda opts: [list(t) for k in range(maxpos + 1) for t in itertools.product(opts, repeat=k)]
+    filters = [dict(addr=a, t=[list(p) for p in t]) for a in ([], ["a1"], ["a1", "a2"]) for t in seqs(([], ["h1"], ["h1", "h2"]))]
+    logs = [dict(a=a, t=list(t)) for a in ("a1", "a2", "a3") for t in seqs(("h1", "h2", "h3"))]
+    return filters, logs
+
+
+def lf_trailing(f):
+    return len(f["t"]) > 0 and f["t"][-1] == []
+
+
+def lf_tla_pair(out):
+    """(criteria, log) of a LogFilter counterexample (initial state)."""
+    m = re.search(r"/\\ f = \[addr \|-> (\{[^}]*\}), t \|-> (<<.*?>>)\]\s*/\\ l = \[([^\]]*)\]", out, re.S)
+    if not m:
+        raise Infra("cannot read the (criteria, log) pair from the LogFilter counterexample:\n" + out[-1500:])
+    toks = lambda s: re.findall(r'"(\w+)"', s)
+    pos = re.findall(r"\{([^}]*)\}", m.group(2))
+    t = re.search(r"t \|-> (<<[^>]*>>)", m.group(3)).group(1)
+    a = re.search(r'a \|-> "(\w+)"', m.group(3)).group(1)
+    return dict(addr=toks(m.group(1)), t=[toks(p) for p in pos]), dict(a=a, t=toks(t))
+
+
+def lf_judge(d, lines, name="lf"):
+    """TLC (TraceLogFilter.tla) judges the recorded deliveries. Returns (accepted lines, first broken (lineno, kind, expected) | None, states)."""
+    td = os.path.join(d, name)
+    os.makedirs(td, exist_ok=True)
+    vlib.stage_spec(td)
+    hdr = dict(target="header", s=0, v=0, f=dict(addr=[], t=[]), logs=[], got=[[]])
+    write(os.path.join(td, "trace.ndjson"), "\n".join(json.dumps(x) for x in [hdr] + lines) + "\n")
+    write(os.path.join(td, "judge.cfg"), "SPECIFICATION TraceSpec\nCONSTANTS\n  Dev = FALSE\nPOSTCONDITION TraceAccepted\nCHECK_DEADLOCK FALSE\n")
+    r = vlib.tlc(td, "TraceLogFilter", "judge.cfg", workers=1, timeout=1800)
+    m = re.search(r'<<\s*"LAWBROKEN",\s*(\d+),\s*"([^"]*)",\s*"((?:[^"\\]|\\.)*)"\s*>>', r["out"])
+    if m:
+        return int(m.group(1)) - 2, (int(m.group(1)) - 1, m.group(2), m.group(3).replace('\\"', '"')), r["generated"]
+    if not r["ok"]:
+        raise Infra("log-delivery trace rejected without a named law:\n" + r["out"][-3000:])
+    return len(lines), None, r["generated"]
+
+
+def lf_signature(c):
+    """Crash class of a child of mode "logs": a panic in a goroutine that consumes log events."""
+    if c["panic"]:
+        m = re.search(r"^goroutine \d+ \[running\]:\n(.*?)(?:\n\n|\Z)", c["stderr"], re.S | re.M)
+        stack = m.group(1) if m else ""
+        fns = re.findall(r"evermint/v12/rpc[\w/]*\.(?:\(\*(\w+)\)\.)?([\w.]+)\(", stack)
+        if not fns:
+            raise Infra("logs child panicked outside evermint's rpc packages (harness problem?):\n" + c["stderr"][-3000:])
+        who = ["%s.%s" % f if f[0] else f[1] for f in fns]
+        role = "log-consumer" if any(("subscribeLogs" in w or "NewFilter" in w or "PublicFilterAPI.Logs" in w) for w in who) else "other"
+        slug = re.sub(r"\d+", "N", re.sub(r"[^A-Za-z0-9]+", "-", c["panic"]))[:60].strip("-")
+        return "Crash/logs-%s:%s" % (slug, role), "the node process died of 'panic: %s' in %s (via %s): a goroutine without recover" % (c["panic"], who[-1], who[0])
+    return ws_signature(c)
+
+
+def sub_logfilter(v, w, tier, seed, binp=None, stats=None):
+    """User-chosen log criteria against injected logs: spec/LogFilter.tla decides, the real websocket `logs` subscription and the real
+    PublicFilterAPI.NewFilter are driven with criteria / logs of its grid, TLC judges every recorded delivery."""
+    sz = LF_SIZES[tier]
+    binp = binp or vlib.bin_path("vh_conc")
+    stats = stats if stats is not None else {}
+    d = w.sub("logfilter")
+    vlib.stage_spec(d)
+    cov = v.cov.setdefault("logfilter", {})
+    t0 = time.time()
+    r = vlib.tlc(d, "LogFilter", "LogFilter_mc.cfg", workers=16, timeout=1800)
+    if r["violated"] or not r["ok"]:
+        raise Infra("LogFilter: the pinned matching rule violates a property of the design (specification bug or a defect to triage):\n" + r["out"][-3000:])
+    v.add_mc(r)
+    filters, logs = lf_grid()
+    g = re.search(r'<<"GRID", (\d+), (\d+)>>', r["out"])
+    if not g or (int(g.group(1)), int(g.group(2))) != (len(filters), len(logs)):
+        raise Infra("the grid of the binding (%d criteria, %d logs) is not the grid of LogFilter.tla (%s)" % (len(filters), len(logs), g and g.groups()))
+    log("design run LogFilter: %d (criteria, log) pairs = %d x %d: the implementation-as-reads never reads past the log's topics and equals the rule (%.0fs)"
+        % (r["distinct"], len(filters), len(logs), time.time() - t0))
+    # witnesses: the deviation must read past the topics; TLC's pairs go first into the binding
+    first = []
+    for inv, extra in (("NoIndexCrash", ""), ("NoIndexCrashSig", "")):
+        write(os.path.join(d, "dev-%s.cfg" % inv), "SPECIFICATION Spec\nCONSTANTS\n  MaxPos = 4\n  Dev = TRUE\nINVARIANTS %s\nCHECK_DEADLOCK FALSE\n" % inv)
+        r = vlib.tlc(d, "LogFilter", "dev-%s.cfg" % inv, workers=1, timeout=600)
+        if not r["violated"]:
+            raise Infra("LogFilter: deviation enabled but TLC finds no read past the log's topics (%s vacuous):\n%s" % (inv, r["out"][-1500:]))
+        v.add_mc(r)
+        f, l = lf_tla_pair(r["out"])
+        first.append((f, l))
+        log("witness LogFilter/%s: criteria %s against log %s reads past the log's topics -> first into the binding" % (inv, json.dumps(f), json.dumps(l)))
+    rng = random.Random(seed * 65537 + 11)
+    if sz["filters"] >= len(filters):
+        fs, ls = list(filters), list(logs)
+        rng.shuffle(ls)
+    else:  # seeded sample, the boundary shapes over-represented: trailing / leading / middle wildcards, every length
+        pool = [f for f in filters if f not in [x[0] for x in first]]
+        rng.shuffle(pool)
+        trailing = [f for f in pool if lf_trailing(f)]
+        fs = [x[0] for x in first] + trailing[:sz["filters"] // 3]
+        fs += [f for f in pool if f not in fs][:sz["filters"] - len(fs)]
+        pl = [l for l in logs if l not in [x[1] for x in first]]
+        rng.shuffle(pl)
+        ls = [x[1] for x in first] + pl[:sz["vectors"] * sz["per"] - len(first)]
+    vectors = [ls[i:i + sz["per"]] for i in range(0, len(ls), sz["per"])]
+    plan = dict(ws_plan("logs", "", seed, WS_SIZES[tier], os.path.join(d, "run"), conns=1, rounds=1), filters=fs, vectors=vectors, passes=sz["passes"])
+    cov.update(criteria=len(fs), logs=len(ls), receipts=len(vectors), passes=sz["passes"], exhaustive_grid=sz["filters"] >= len(filters))
+
+    def once(k):
+        p = dict(plan, out=plan["out"] + "-%d" % k)
+        shutil.rmtree(p["out"], ignore_errors=True)
+        c = run_child(binp, p, timeout=1800, kind="ws")
+        sig, text = lf_signature(c)
+        return dict(plan=p, child=c, sig=sig, text=text)
+
+    t1 = time.time()
+    o = once(0)
+    outs = [o]
+    lines, broken, acc, tstates = [], None, 0, 0
+    if o["sig"] is None:
+        lines = [json.loads(x) for x in vlib.read_lines(os.path.join(o["plan"]["out"], "logtrace.ndjson"))]
+        acc, broken, tstates = lf_judge(d, lines)
+    if o["sig"] is not None or broken:
+        outs += pmap(once, [1, 2], workers=2)  # the same plan again: a verdict only when it repeats
+    if o["sig"] is not None:
+        n = sum(1 for x in outs if x["sig"] == o["sig"])
+        if n == 3:
+            rp = vlib.save_replay(v.pid, "logfilter-crash", [([json.dumps(dict(kind="logs", expect=o["sig"], plan=dict(plan, out="replayed")))], "case.json"),
+                                                            ([o["child"]["stderr"][-6000:]], "stderr.txt")],
+                                  "%s: %s\nre-run: bin/check C20 --replay <this dir>" % (o["sig"], o["text"]))
+            v.violation(o["sig"], rp, "%s -- log subscriptions / filters with user-chosen criteria (first: %s) while EVM tx events with logs (first: %s) are delivered [3/3 runs]"
+                        % (o["text"], json.dumps(fs[0]), json.dumps(ls[0])))
+            log("log criteria: %s REPRODUCED 3/3 on the real code" % o["sig"])
+        else:
+            cov.setdefault("unreproduced", []).append("%s (%s): %d of 3 runs" % (o["sig"], o["text"][:200], n))
+    elif broken:
+        ln = lines[broken[0] - 1]
+        again = 0
+        for x in outs[1:]:
+            if x["sig"] is None:
+                l2 = [json.loads(y) for y in vlib.read_lines(os.path.join(x["plan"]["out"], "logtrace.ndjson"))]
+                _, b2, st2 = lf_judge(d, l2, name="lf-again%d" % again)
+                tstates += st2
+                again += bool(b2 and b2[1] == broken[1])
+        if again == 2:
+            rp = vlib.save_replay(v.pid, "logfilter-delivery", [([json.dumps(dict(kind="logs", expect=SIG_LF + ":" + broken[1], plan=dict(plan, out="replayed")))], "case.json"),
+                                                               ([json.dumps(ln)], "line.json")], "line %d (%s): %s; the model's matches: %s" % (broken[0], broken[1], json.dumps(ln), broken[2]))
+            v.violation(SIG_LF + ":" + broken[1], rp, "%s of criteria %s delivered logs %s of the receipt %s; spec/LogFilter.tla: exactly %s match [%s in 3/3 runs]"
+                        % ("the websocket logs subscription" if ln["target"] == "ws" else "PublicFilterAPI.NewFilter/GetFilterChanges", json.dumps(ln["f"]), ln["got"], json.dumps(ln["logs"]), broken[2], broken[1]))
+        else:
+            raise Infra("log deliveries rejected (%s at line %d: %s) but only in %d of 2 re-runs: flaky observation" % (broken[1], broken[0], json.dumps(ln)[:300], again))
+    res = o["child"]["result"] or {}
+    ev = res.get("events", {})
+    pairs = sum(len(x["logs"]) for x in lines)
+    region = sum(1 for x in lines for l in x["logs"] if lf_trailing(x["f"]) and len(l["t"]) < len(x["f"]["t"]))
+    matched = sum(len(max(x["got"], key=len)) for x in lines)
+    lostpass = sum(1 for x in lines for gp in x["got"] if gp == [] and any(q for q in x["got"]))
+    if o["sig"] is None and not broken and (region == 0 or matched == 0):
+        raise Infra("log-criteria binding vacuous: %d pairs with a trailing wildcard beyond the log's topics, %d logs delivered" % (region, matched))
+    v.cov["states"] += tstates
+    v.cov["transitions"] += tstates
+    cov.update(lines_judged_by_tlc=len(lines), lines_accepted=acc if not broken else broken[0] - 1, pairs_through_real_code=pairs, pairs_trailing_wildcard_beyond_log=region,
+               logs_delivered=matched, passes_that_lost_an_event=lostpass, sentinel_misses=ev.get("sentinelMisses", 0), wall_s=round(time.time() - t0, 1))
+    # self-test of the judge: one delivered index removed / one added must be rejected
+    tests = []
+    if lines and not broken:
+        k = next(i for i, x in enumerate(lines) if len(x["got"][0]) >= 1 and len(x["got"][0]) < len(x["logs"]))
+        x = lines[k]
+        miss = [i + 1 for i in range(len(x["logs"])) if i + 1 not in x["got"][0]][0]
+        for name, got in (("missing", [g[1:] for g in x["got"]]), ("extra", [sorted(g + [miss]) for g in x["got"]])):
+            _, b, _ = lf_judge(d, [dict(x, got=got)], name="lf-selftest-" + name)
+            if not b:
+                raise Infra("binding vacuous: a delivery with one %s log was accepted by TraceLogFilter" % name)
+            tests.append("delivery with one %s log rejected (%s)" % (name, b[1]))
+        for s in tests:
+            log("binding self-test (log criteria): " + s)
+    cov["selftest"] = tests
+    log("log criteria: %d subscriptions + %d filters with criteria of the grid x %d receipts (%d logs) x %d passes on the real code: %d lines judged by TLC, %d (criteria, log) pairs, "
+        "%d of them with a trailing wildcard beyond the log's topics, %d logs delivered, %d passes lost a whole event (%.0fs)"
+        % (len(fs), len(fs), len(vectors), len(ls), sz["passes"], len(lines), pairs, region, matched, lostpass, time.time() - t1))
+    stats.update(runs=len(outs), traces_ok=(len(lines) if lines and not broken else 0), classes={"logfilter.lines": len(lines), "logfilter.trailing-beyond-log": region},
+                 nontrivial_keys=set(hashlib.sha1(json.dumps([x["f"], l]).encode()).hexdigest() for x in lines for l in x["logs"] if lf_trailing(x["f"]) and len(l["t"]) < len(x["f"]["t"])))
+    return stats
+
+
+def lf_replay(binp, w, case):
+    d = w.sub("lf-replay")
+
+    def once(k):
+        c = run_child(binp, dict(case["plan"], out=os.path.join(d, "run%d" % k)), timeout=1800, kind="ws")
+        sig, _ = lf_signature(c)
+        if sig is None and case["expect"].startswith(SIG_LF):
+            lines = [json.loads(x) for x in vlib.read_lines(os.path.join(d, "run%d" % k, "logtrace.ndjson"))]
+            _, b, _ = lf_judge(d, lines, name="judge%d" % k)
+            sig = SIG_LF + ":" + b[1] if b else None
+        return sig
+
+    sigs = pmap(once, range(3), workers=3)
+    log("replay: log-criteria scenario 3x -> %s" % sigs)
+    return sigs.count(case["expect"]) == 3
+
+
+def sub_logfilter_ctx(ctx):
+    st = sub_logfilter(ctx["v"], ctx["w"], ctx["tier"], ctx["seed"], binp=ctx["bin"])
+    ctx["replayed"] += st["runs"]
+    ctx["traces_ok"] += 1 if st["traces_ok"] else 0
+    ctx["classes"].update(st["classes"])
+    ctx["nontrivial"] |= st["nontrivial_keys"]
+    ctx["selftests"] += ctx["v"].cov["logfilter"]["selftest"]
+
+
+SUBCHECKS = [sub_design, sub_buslocks, sub_ws_ctx, sub_logfilter_ctx, sub_deviations, sub_indexer, sub_timers, sub_simulate, sub_stress, sub_selftest]
 
 
 
@@ -1316,6 +1529,8 @@ def do_replay(pid, w, replay):
     plan = dict(case["plan"], out=os.path.join(w.sub("replay"), "run"))
     if case["kind"] == "ws":
         bad = ws_replay(binp, w, case)
+    elif case["kind"] == "logs":
+        bad = lf_replay(binp, w, case)
     elif case["kind"] == "buslock":
         c = run_child(binp, plan, kind="buslock")
         bad = bool(c["result"]["blocked"]) or not c["result"]["delivered"]
